@@ -1,1 +1,176 @@
-From Bermuda Require Import Model.Aggregate.
+(** C08 -- aggregation sums exactly the cells it merges and loses nothing.
+    Static theorems about Model/Aggregate.v (any rule table; the generated one is instantiated in
+    GenProps/C08_rules.v).
+
+    PROVED IN FULL
+    - alignment loops of _aggregate_eval/_aggregate_period: the model's fuel suffices and the result
+      is the grid point (orbit of the origin under resolution_delta) immediately before the first
+      date [C08_align]; evaluation grid loop [C08_eval_grid]; for day/week units without any range
+      bound, with the closed form origin + k*q [C08_align_days].
+    - window assignment: every cell of the (proved) period-sorted list is relabelled with the grid
+      window (g, g+res] that holds its period start, and its period end lies inside it -- otherwise
+      TriangleError [C08_period_windows, C08_period_errors, C08_no_straddler_survives].
+    - exactly one output cell per (window, evaluation date), carrying the slice's metadata and the
+      summarised values of exactly the cells relabelled to it; additive fields are sums
+      [C08_one_cell_per_window_and_eval, C08_window_field_is_sum]; conservation of every field total per
+      slice and evaluation date [C08_conservation_per_eval].
+    - evaluation resolution only: the result is `filter (evaluation date in the grid)` [C08_eval_only].
+    - incremental input: aggregate x = to_incremental (aggregate (to_cumulative x)) [C08_incremental]
+      (through wp-basis's Model/Basis.v).
+    - month arithmetic facts for month ids 0..1571 (1970-01 .. 2100-12), by kernel computation:
+      resolution_delta of a month end is the month end q months later, strictly increasing, windows
+      are [month_start (i+1), month_end (i+q)] [C08_month_grid, C08_month_end_increasing].
+    PARTIAL (statement visible below as C08_period_windows_partial's hypotheses)
+    - the generic window theorems assume `x < delta r false x`, `delta r true x < x`,
+      `delta r false (delta r true x) = x` for ALL x.  This holds for day/week units (instantiated:
+      C08_day_units).  For month units it holds on month ends of 1970-2100 only (C08_month_grid);
+      lifting the generic theorems to range-relative hypotheses is not done, so for month units the
+      closed-form window statement is checked on every run by the correspondence
+      implementation = walk model = loop-free specification agg_ref (closed-form windows / grid).
+    - fuel sufficiency of the per-cell advance loop inside relabel is not proved (exhaustion would
+      surface as Err OtherError in the correspondence). *)
+From Coq Require Import ZArith List Bool.
+From Bermuda Require Import Model.Base Lib.Calendar Model.Summarize Model.Basis Model.Aggregate
+  Proofs.SummarizeLib Proofs.Summarize Proofs.Summarize2 Proofs.Aggregate.
+Import ListNotations.
+Local Open Scope Z_scope.
+
+Theorem C08_align : forall (step back : Z -> Z),
+  (forall x, x < step x) -> (forall x, back x < x) -> (forall x, step (back x) = x) ->
+  forall fuel origin first, Z.abs (first - origin) + 2 < Z.of_nat fuel ->
+  exists c n, align step back fuel origin first = Some c /\
+              (c = iter n step origin \/ c = iter n back origin) /\ c < first /\ first <= step c.
+Proof. exact align_spec. Qed.
+Theorem C08_model_fuel_suffices : forall origin first last,
+  Z.abs (first - origin) + 2 < Z.of_nat (walk_fuel origin first last).
+Proof. exact walk_fuel_enough. Qed.
+Theorem C08_eval_grid : forall (step : Z -> Z), (forall x, x < step x) ->
+  forall fuel cur last, Z.max 0 (last - cur + 1) < Z.of_nat fuel ->
+  exists l, grid_upto step fuel cur last = Some l /\
+            forall x, In x l <-> exists n, x = iter n step cur /\ x <= last.
+Proof. exact grid_upto_spec. Qed.
+Theorem C08_align_days : forall q origin first last, 1 <= q ->
+  exists c k, align (delta (RDay q) false) (delta (RDay q) true) (walk_fuel origin first last) origin first = Some c /\
+              c = origin + k * q /\ c < first <= c + q.
+Proof. exact align_days. Qed.
+
+Theorem C08_sorted_by_period_start : forall l, ps_nondecr (sort_coords l).
+Proof. exact sort_coords_ps_nondecr. Qed.
+
+Section C08.
+  Variable wavg : transform -> list value -> list value -> result value.
+  Variable rules : rule_table.
+  Variable nl : list str.
+
+  (* windows are the consecutive grid intervals (g, delta g] starting the day after a grid point *)
+  Theorem C08_period_windows_partial : forall r,
+    (forall x, x < delta r false x) -> (forall x, delta r true x < x) ->
+    (forall x, delta r false (delta r true x) = x) ->
+    forall origin prem cells out,
+    aggregate_period wavg rules nl (Some r) origin prem cells = Ok out ->
+    exists init relabelled,
+      (exists n, init = iter n (delta r false) origin \/ init = iter n (delta r true) origin) /\
+      Forall2 (window_assignment r init) (sort_coords cells) relabelled /\
+      map_result (window_cell wavg rules nl prem) (groupby coord_eqb coord3 relabelled) = Ok out.
+  Proof. exact (aggregate_period_spec wavg rules nl). Qed.
+
+  Theorem C08_day_units : forall q, 1 <= q -> forall origin prem cells out,
+    aggregate_period wavg rules nl (Some (RDay q)) origin prem cells = Ok out ->
+    exists init relabelled,
+      (exists n, init = iter n (delta (RDay q) false) origin \/ init = iter n (delta (RDay q) true) origin) /\
+      Forall2 (window_assignment (RDay q) init) (sort_coords cells) relabelled /\
+      map_result (window_cell wavg rules nl prem) (groupby coord_eqb coord3 relabelled) = Ok out.
+  Proof.
+    intros q Hq. exact (aggregate_period_spec wavg rules nl (RDay q) (day_step_up q Hq) (day_back_down q Hq) (day_step_back q)).
+  Qed.
+
+  Theorem C08_period_errors : forall r,
+    (forall x, x < delta r false x) -> (forall x, delta r true x < x) ->
+    (forall x, delta r false (delta r true x) = x) ->
+    forall origin prem cells e,
+    aggregate_period wavg rules nl (Some r) origin prem cells = Err e ->
+    (e = IndexError /\ cells = []) \/ e = TriangleError \/ e = OtherError \/
+    (exists relabelled, map_result (window_cell wavg rules nl prem) (groupby coord_eqb coord3 relabelled) = Err e).
+  Proof. exact (aggregate_period_errors wavg rules nl). Qed.
+  (* a period that reaches beyond the window holding its start is refused with TriangleError *)
+  Theorem C08_straddle_refused : forall (step : Z -> Z) fuel init c r i',
+    walk_up step fuel init (ps c) = Some i' -> step i' < pe c ->
+    relabel step fuel init (c :: r) = Err TriangleError.
+  Proof. exact relabel_straddle. Qed.
+  Theorem C08_no_straddler_survives : forall (step : Z -> Z) fuel init cells out,
+    relabel step fuel init cells = Ok out ->
+    Forall2 (fun c o => ev o = ev c /\ cmeta o = cmeta c /\ cvals o = cvals c /\ ckind o = KCell /\ prev o = None /\
+                        exists g, ps o = g + 1 /\ pe o = step g /\ pe c <= step g) cells out.
+  Proof. exact relabel_map. Qed.
+
+  Theorem C08_one_cell_per_window_and_eval : forall prem l out,
+    map_result (window_cell wavg rules nl prem) (groupby coord_eqb coord3 l) = Ok out ->
+    map coord3 out = dedupe coord_eqb (map coord3 l) /\
+    forall o, In o out ->
+      let g := members coord_eqb coord3 l (coord3 o) in
+      ckind o = KCum /\ (exists c0 r, g = c0 :: r /\ cmeta o = cmeta c0) /\
+      summarize_cell_values wavg rules nl prem g = Ok (cvals o).
+  Proof. exact (windows_one_cell_each wavg rules nl). Qed.
+  Theorem C08_window_field_is_sum : forall prem g vals k v,
+    summarize_cell_values wavg rules nl prem g = Ok vals -> g <> [] -> In (k, v) vals ->
+    lookup_rule rules k = Some (RSum k) -> (prem = true \/ mem_str k nl = false) ->
+    conforming_sum (raw k g) = Ok v.
+  Proof. exact (scv_sum_entry wavg rules nl). Qed.
+  Theorem C08_conservation_per_eval : forall prem l out k i e,
+    map_result (window_cell wavg rules nl prem) (groupby coord_eqb coord3 l) = Ok out ->
+    lookup_rule rules k = Some (RSum k) -> (prem = true \/ mem_str k nl = false) ->
+    (forall o, In o out -> in_range i (getv k o)) ->
+    total_at e i k out = total_at e i k l.
+  Proof. exact (windows_conserve wavg rules nl). Qed.
+  (* re-labelling and sorting keep evaluation dates and values, hence the per-evaluation totals *)
+  Theorem C08_sort_conserves : forall (f : cell -> Z) l, zsum (map f (sort_coords l)) = zsum (map f l).
+  Proof. exact sort_coords_sum. Qed.
+
+  Theorem C08_eval_only : forall a slice, period_res a = None ->
+    aggregate_slice wavg rules nl a slice = aggregate_eval (eval_res a) (eval_origin a) slice.
+  Proof. exact (aggregate_eval_only wavg rules nl). Qed.
+  Theorem C08_eval_filters : forall r origin c0 cells out,
+    aggregate_eval (Some r) origin (c0 :: cells) = Ok out ->
+    exists valid, valid_evals r origin (zmin_list (ev c0) (map ev (c0 :: cells))) (zmax_list (ev c0) (map ev (c0 :: cells))) = Some valid /\
+                  out = filter (fun c => existsb (Z.eqb (ev c)) valid) (c0 :: cells).
+  Proof. exact aggregate_eval_filters. Qed.
+
+  Theorem C08_incremental : forall a t, is_incremental t = true ->
+    aggregate wavg rules nl a t
+    = bind (to_cumulative std_desc t) (fun cum => bind (aggregate wavg rules nl a cum) (to_incremental std_desc))
+    \/ exists cum, to_cumulative std_desc t = Ok cum /\ is_incremental cum = true.
+  Proof. exact (aggregate_incremental wavg rules nl). Qed.
+End C08.
+
+(* month arithmetic, month ids 0..1571 (1970-01 .. 2100-12) *)
+Theorem C08_month_grid : forall i q, 0 <= i <= 1571 -> 1 <= q ->
+  delta (RMonth q) false (month_end i) = month_end (i + q) /\
+  delta (RMonth q) true (month_end i) = month_end (i - q) /\
+  month_end i + 1 = month_start (i + 1).
+Proof. exact month_window. Qed.
+Theorem C08_month_end_increasing : forall i j, 0 <= i -> j <= 1572 -> i < j -> month_end i < month_end j.
+Proof. exact month_end_increasing. Qed.
+
+Print Assumptions C08_align.
+Print Assumptions C08_align_days.
+Print Assumptions C08_period_windows_partial.
+Print Assumptions C08_day_units.
+Print Assumptions C08_one_cell_per_window_and_eval.
+Print Assumptions C08_conservation_per_eval.
+Print Assumptions C08_incremental.
+Print Assumptions C08_month_grid.
+
+(* non-vacuity: four quarterly cells of one slice aggregate to one yearly cell per evaluation date *)
+Definition k_paid : str := [112;97;105;100;95;108;111;115;115].
+Definition ex_rules : rule_table := [(k_paid, RSum k_paid)].
+Definition exc (s e v paid : Z) : cell := mkCell KCum s e v None default_meta [(k_paid, VNum (Num false paid))].
+Definition ex_tri : list cell :=
+  [exc 730120 730210 730485 1024; exc 730211 730301 730485 2048; exc 730302 730393 730485 4096; exc 730394 730485 730485 8192].
+Example C08_nonvacuous :
+  aggregate wavg_mask ex_rules [] (mkArgs (Some (standardize 1 UYear)) None 730119 730119 true) ex_tri
+  = Ok [exc 730120 730485 730485 15360]
+  /\ agg_ref wavg_mask ex_rules [] (mkArgs (Some (standardize 1 UYear)) None 730119 730119 true) ex_tri
+  = Ok [exc 730120 730485 730485 15360]
+  /\ aggregate wavg_mask ex_rules [] (mkArgs (Some (standardize 4 UMonth)) None 730119 730119 true) ex_tri
+  = Err TriangleError.
+Proof. repeat split; vm_compute; reflexivity. Qed.
